@@ -49,6 +49,11 @@ def corpus_games():
         g = dict(rewards=[1, 0, 0, 0, 0], players=[PR] * n, transition_list=tl, final_states=[3])
         fr = [[Fr(p).limit_denominator(8) for p, _ in row]] + [[Fr(1)]] * 4
         out.append((g, dict(fr=fr, style="corpus")))
+    # the initial state reaches the final state directly with a probability around the solver's threshold
+    for pz in (1e-7, 9e-7, 1e-6, 1.1e-6, 1e-5):
+        out.append((dict(rewards=[1, 0, 0], players=[PR, PR, PR],
+                         transition_list=[[(pz, 1), (1 - pz, 2)], [(1, 1)], [(1, 2)]], final_states=[1]),
+                    dict(fr=[[Fr(pz), 1 - Fr(pz)], [Fr(1)], [Fr(1)]], style="corpus", guard="any")))
     # the initial state is itself final: absorbing, and with outgoing transitions
     out.append((dict(rewards=[0, 0], players=[PR, PR], transition_list=[[(1, 0)], [(1, 1)]], final_states=[0]),
                 dict(fr=[[Fr(1)], [Fr(1)]], style="corpus")))
@@ -135,6 +140,8 @@ def correspondence(ctx, recs, cmp_name, tag, chunk=120):
 def guard_of(game, meta):
     """'exact' | 'cond' | 'any' — the strongest family of claims that is sound for this input"""
     st = meta["style"]
+    if meta.get("guard"):
+        return meta["guard"]
     if st in ("exact", "ties", "pattern", "corpus"):
         return "exact"
     if st == "stopping":
